@@ -685,6 +685,30 @@ theorem quiescent_of_workers_done {g : G} (K : StackOk g) (h : ∀ i, en g (.t i
     exact countP_active_of_finished st this (K st hst)
   simp [quiescent, hq]
 
+/-! ### The measure at the start, in closed form -/
+
+theorem totalW_init (progs : List (List Op)) : totalW (init progs) = (progs.map opsW).sum := by
+  unfold totalW init
+  induction progs with
+  | nil => rfl
+  | cons p l ih =>
+    simp only [List.map_cons, List.sum_cons] at ih ⊢
+    rw [ih]; simp [stackW, Frame.w, pcW]
+
+theorem stale_init (progs : List (List Op)) : stale (init progs) = 0 := by
+  unfold stale init
+  apply sum_eq_zero_of_all
+  intro st hst
+  simp only [List.mem_map] at hst
+  obtain ⟨p, -, rfl⟩ := hst
+  rfl
+
+/-- the bound at the start, in closed form: 15 per send, 8 per drain, 2 per wrong-type send, plus 2 -/
+theorem mu_init (progs : List (List Op)) :
+    mu (init progs) = (progs.length + 1) * ((progs.map opsW).sum + 2) := by
+  simp only [mu, phi, totalW_init, stale_init, Nat.add_zero]
+  simp [init, rho]
+
 /-! ### A CAS fails only because somebody else made progress -/
 
 /-- a frame below the top of a stack is a program frame or a send inside `box_message` -/
